@@ -150,6 +150,7 @@ class ArrIt:
 class Peek:
     def __init__(self, it): self.it, self.peeked = it, None   # peeked: None | ('v', Option)
 def it_next(ctx, it):
+    while isinstance(it, Ref): it = it.get()
     if isinstance(it, ArrIt):
         if it.i < len(it.items):
             v = it.items[it.i]; it.i += 1; return SOME(v)
